@@ -10,9 +10,15 @@
 // output: per op the sorted directory listing
 //            <nfiles> { <ncomp> {<len> bytes..}* <size> <nst> ids.. }*
 //         then " | " and what libc returned for every instant t (seconds) used by the case:
-//            <n> { <t> <len> bytes("%Y%m%d") <len> bytes("%Y%m%d_%H%M%S") <rt> }*
-//         (rt = mktime/timegm of the broken-down time after the field update of
-//          _calculate_initial_rotation_tp; computed here by direct libc calls, not through quill)
+//            <n> { <t> <len> bytes("%Y%m%d") <len> bytes("%Y%m%d_%H%M%S") <rt0> <rt1> <rt2> }*
+//         (rt0 = mktime/timegm of the broken-down time after the field update of
+//          _calculate_initial_rotation_tp, tm_isdst as localtime gave it; daily rotation only:
+//          rt1 = the same with tm_isdst = -1, rt2 = then tm_mday + 1, HH:MM:00, tm_isdst = -1 (tomorrow's
+//          HH:MM); otherwise rt1 = rt2 = rt0.  Computed here by direct libc calls, not through quill.)
+//         glibc's mktime answers an ambiguous local time (HH:MM inside the hour repeated at the end of
+//         DST, tm_isdst = -1) from the UTC offset remembered from its previous call; to make that
+//         reproducible the harness primes it with mktime(localtime(t)) before every constructor /
+//         write_log at instant t and before the oracle calls for t.
 // every statement is one line "<id> xxxx\n" of exactly <wr> bytes (JSON: the "message" value carries
 // the id and the padding makes the whole JSON line <wr> bytes); <cnt> = log_statement.size() handed
 // to the JSON sink (for the plain sink log_statement is the line itself).
@@ -150,6 +156,16 @@ static quill::RotatingFileSinkConfig make_cfg(Conf const& c, bool wmode, bool rm
   return cfg;
 }
 
+// mktime remembers the UTC offset of its last answer: set it to the offset in force at t
+static void prime_mktime(Conf const& c, u64 t)
+{
+  if (c.gmt) return;
+  time_t tt = static_cast<time_t>(t);
+  tm d;
+  localtime_r(&tt, &d);
+  ::mktime(&d);
+}
+
 static void oracle_row(Conf const& c, u64 t, std::vector<u64>& out)
 {
   time_t tt = static_cast<time_t>(t);
@@ -158,20 +174,35 @@ static void oracle_row(Conf const& c, u64 t, std::vector<u64>& out)
   char b1[64], b2[64];
   strftime(b1, sizeof b1, "%Y%m%d", &d);
   strftime(b2, sizeof b2, "%Y%m%d_%H%M%S", &d);
-  tm e = d;
-  u64 rt = 0;
+  auto conv = [&](tm& e) { time_t r = c.gmt ? ::timegm(&e) : ::mktime(&e); return r < 0 ? u64{0} : static_cast<u64>(r); };
+  u64 rt0 = 0, rt1 = 0, rt2 = 0;
   if (c.freq)
   {
+    if (c.freq == 1)
+    {
+      // the calls of the repaired code, in its order
+      prime_mktime(c, t);
+      tm e = d;
+      e.tm_hour = static_cast<int>(c.hh); e.tm_min = static_cast<int>(c.mm); e.tm_sec = 0; e.tm_isdst = -1;
+      rt1 = conv(e);
+      e.tm_mday += 1;
+      e.tm_hour = static_cast<int>(c.hh); e.tm_min = static_cast<int>(c.mm); e.tm_sec = 0; e.tm_isdst = -1;
+      rt2 = conv(e);
+    }
+    prime_mktime(c, t);
+    tm e = d;
     if (c.freq == 3) { e.tm_min += 1; e.tm_sec = 0; }
     else if (c.freq == 2) { e.tm_hour += 1; e.tm_min = 0; e.tm_sec = 0; }
     else { e.tm_hour = static_cast<int>(c.hh); e.tm_min = static_cast<int>(c.mm); e.tm_sec = 0; }
-    time_t r = c.gmt ? ::timegm(&e) : ::mktime(&e);
-    rt = r < 0 ? 0 : static_cast<u64>(r);
+    rt0 = conv(e);
+    if (c.freq != 1) rt1 = rt2 = rt0;
   }
   out.push_back(t);
   put_comp(out, b1);
   put_comp(out, b2);
-  out.push_back(rt);
+  out.push_back(rt0);
+  out.push_back(rt1);
+  out.push_back(rt2);
 }
 
 int main()
@@ -212,7 +243,7 @@ int main()
       }
     }
     u64 nt = cu.next();
-    for (u64 k = 0; k < nt && cu.ok; ++k) { cu.next(); cu.comp(); cu.comp(); cu.next(); }
+    for (u64 k = 0; k < nt && cu.ok; ++k) { cu.next(); cu.comp(); cu.comp(); cu.next(); cu.next(); cu.next(); }
 
     std::vector<u64> out;
     std::set<u64> instants;
@@ -230,6 +261,7 @@ int main()
           u64 id = cu.next(), ts = cu.next(), wr = cu.next(), cnt = cu.next();
           if (!cu.ok) break;
           instants.insert(ts / 1000000000ull);
+          prime_mktime(c, ts / 1000000000ull);
           if (c.json)
           {
             if (!json) break;
@@ -263,6 +295,7 @@ int main()
           u64 wm = cu.next(), rm = cu.next(), st = cu.next();
           if (!cu.ok) break;
           instants.insert(st / 1000000000ull);
+          prime_mktime(c, st / 1000000000ull);
           plain.reset();
           json.reset();
           auto cfg = make_cfg(c, wm != 0, rm != 0);
